@@ -135,9 +135,9 @@ func TestC05Histories(t *testing.T) {
 					nt = 3
 				}
 			}
-			return model.Op{K: "regnode", N: id, NT: nt, Pol: rapid.SampledFrom([]int{0, 0, 0, 0, 1, 2, 3}).Draw(t, "pol"), Dress: rapid.SampledFrom([]int{0, 0, 0, 1, 2, 3}).Draw(t, "dress"),
-				Shape: rapid.SampledFrom([]int{0, 0, 0, 1, 2, 3, 4}).Draw(t, "shape"), Reuse: rapid.IntRange(0, 7).Draw(t, "reuse") == 0,
-				CloseErr: rapid.IntRange(0, 5).Draw(t, "closeErr") == 0}
+			return model.Op{K: "regnode", N: id, NT: nt, Pol: rapid.SampledFrom([]int{0, 0, 0, 0, 1, 2, 3}).Draw(t, "pol"), Dress: rapid.SampledFrom([]int{0, 0, 0, 1, 2, 3, 4}).Draw(t, "dress"),
+				Shape: rapid.SampledFrom([]int{0, 0, 0, 1, 2, 3, 4, 5}).Draw(t, "shape"), Reuse: rapid.IntRange(0, 7).Draw(t, "reuse") == 0,
+				CloseErr: rapid.IntRange(0, 5).Draw(t, "closeErr") == 0, CloseKind: rapid.IntRange(0, 2).Draw(t, "closeKind")}
 		case 1:
 			if rapid.Bool().Draw(t, "likelyValid") {
 				ids := rapid.SliceOfN(rapid.SampledFrom([]string{"a", "b", "c", " "}), 0, 2).Draw(t, "inner")
@@ -147,7 +147,7 @@ func TestC05Histories(t *testing.T) {
 			}
 			ids := rapid.SliceOfN(rapid.SampledFrom([]string{"a", "b", "c", "d", "a", "b", "c", "d", "a", "b", "c", "d", "zz", "", " "}), 0, 5).Draw(t, "ids")
 			return model.Op{K: "regpipe", ET: rapid.SampledFrom([]string{"A", "A", "B", "B", "A", "B", ""}).Draw(t, "et"),
-				P: rapid.SampledFrom([]string{"p", "q", "r", "p", "q", "r", ""}).Draw(t, "p"), IDs: ids, Pol: rapid.SampledFrom([]int{0, 0, 0, 1, 2, 3}).Draw(t, "ppol"), Dress: rapid.SampledFrom([]int{0, 0, 0, 1, 2, 3}).Draw(t, "pdress")}
+				P: rapid.SampledFrom([]string{"p", "q", "r", "p", "q", "r", ""}).Draw(t, "p"), IDs: ids, Pol: rapid.SampledFrom([]int{0, 0, 0, 1, 2, 3}).Draw(t, "ppol"), Dress: rapid.SampledFrom([]int{0, 0, 0, 1, 2, 3, 4}).Draw(t, "pdress")}
 		case 2:
 			return model.Op{K: "rmnode", N: rapid.SampledFrom([]string{"a", "b", "c", "d", "zz", "", " "}).Draw(t, "n"), CtxDone: rapid.IntRange(0, 3).Draw(t, "ctxDone") == 0}
 		case 3:
@@ -158,7 +158,7 @@ func TestC05Histories(t *testing.T) {
 	})
 	rapid.Check(t, func(t *rapid.T) {
 		// prelude that makes valid pipelines likely: a formatter and a sink exist
-		ops := []model.Op{{K: "regnode", N: "c", NT: 2, CloseErr: rapid.Bool().Draw(t, "cCloseErr")}, {K: "regnode", N: "d", NT: 3, Shape: rapid.IntRange(0, 3).Draw(t, "dShape")}}
+		ops := []model.Op{{K: "regnode", N: "c", NT: 2, CloseErr: rapid.Bool().Draw(t, "cCloseErr"), CloseKind: rapid.IntRange(0, 2).Draw(t, "cCloseKind")}, {K: "regnode", N: "d", NT: 3, Shape: rapid.IntRange(0, 3).Draw(t, "dShape")}}
 		ops = append(ops, rapid.SliceOfN(opGen, 1, maxOps).Draw(t, "ops")...)
 		c := model.NewChecker()
 		okPipes, failedAfter := 0, 0
